@@ -252,7 +252,7 @@ func spellString(t *rapid.T, sb *strings.Builder, s string, style int) {
 	for _, r := range s {
 		mustEscape := r < 0x20 || r == '"' || r == '\\'
 		choice := 0
-		if style != 0 {
+		if style == 1 {
 			choice = rapid.IntRange(0, 4).Draw(t, "esc")
 		}
 		short := map[rune]string{'"': `\"`, '\\': `\\`, '\b': `\b`, '\f': `\f`, '\n': `\n`, '\r': `\r`, '\t': `\t`, '/': `\/`}
@@ -288,7 +288,7 @@ func writeUEscape(sb *strings.Builder, r rune, upper bool) {
 
 // spellNumber returns a JSON number literal that parses to exactly f.
 func spellNumber(t *rapid.T, f float64, style int) string {
-	if style == 0 {
+	if style != 1 {
 		return strconv.FormatFloat(f, 'g', -1, 64)
 	}
 	if f == 0 {
@@ -337,7 +337,7 @@ func spellNumber(t *rapid.T, f float64, style int) string {
 }
 
 // spellValue serializes a value tree with drawn member order, whitespace, escapes and number spellings.
-// style 0 = plain compact (Go-like), style 1 = everything varied.
+// style 0 = plain compact (Go-like), style 1 = everything varied, style 2 = member order and whitespace only.
 func spellValue(t *rapid.T, sb *strings.Builder, v interface{}, style int) {
 	switch x := v.(type) {
 	case nil:
